@@ -250,6 +250,45 @@ def near_misses(il: Any) -> list[tuple[str, Any]]:
                 out.append((f"lo1_{v}", rebuild(Reduce(e.inner_expr, e.op, constantdict(b)))))
                 b[v] = (0, hi - 1)
                 out.append((f"hi-1_{v}", rebuild(Reduce(e.inner_expr, e.op, constantdict(b)))))
+        if isinstance(e.inner_expr, p.Subscript):
+            sub = e.inner_expr
+            shape = il.bindings[sub.aggregate.name].shape
+            rpos = [k for k, q in enumerate(sub.index_tuple)
+                    if isinstance(q, p.Variable) and q.name in e.bounds]
+            # a reduction variable at TWO positions (a trace / diagonal, not a
+            # reduction along whole axes)
+            for k1 in rpos[:1]:
+                for k2, q in enumerate(sub.index_tuple):
+                    if k2 != k1 and isinstance(q, p.Variable) and shape[k2] == shape[k1]:
+                        new = list(sub.index_tuple)
+                        new[k2] = sub.index_tuple[k1]
+                        b = {v: bd for v, bd in e.bounds.items()}
+                        out.append((f"diag{k1}{k2}", rebuild(Reduce(
+                            p.Subscript(sub.aggregate, tuple(new)), e.op, constantdict(b)))))
+                        # ... with the displaced reduction variable dropped from the bounds
+                        if q.name in e.bounds and q.name != sub.index_tuple[k1].name:
+                            b2 = {v: bd for v, bd in e.bounds.items() if v != q.name}
+                            il2 = pt.IndexLambda(
+                                expr=Reduce(p.Subscript(sub.aggregate, tuple(new)), e.op,
+                                            constantdict(b2)),
+                                shape=il.shape, dtype=il.dtype, bindings=il.bindings,
+                                axes=il.axes, tags=il.tags,
+                                var_to_reduction_descr=constantdict(
+                                    {v: d for v, d in il.var_to_reduction_descr.items()
+                                     if v != q.name}))
+                            out.append((f"trace{k1}{k2}", il2))
+                        break
+            # a reduction variable that indexes nothing (the sum counts it)
+            if "_r9" not in e.bounds:
+                b = dict(e.bounds)
+                b["_r9"] = (0, 2)
+                il3 = pt.IndexLambda(
+                    expr=Reduce(sub, e.op, constantdict(b)), shape=il.shape, dtype=il.dtype,
+                    bindings=il.bindings, axes=il.axes, tags=il.tags,
+                    var_to_reduction_descr=constantdict(
+                        {**il.var_to_reduction_descr,
+                         "_r9": pt.array.ReductionDescriptor(frozenset())}))
+                out.append(("unused_redn_var", il3))
         out.append(("red_of_sum", rebuild(Reduce(e.inner_expr + 1, e.op, e.bounds))))
         out.append(("red_scaled", rebuild(2 * Reduce(e.inner_expr, e.op, e.bounds))))
     if len(il.shape) == 1:
